@@ -954,6 +954,14 @@ def _rule_sequence_order(check, repo: Repo) -> None:
     check.floor("element-wise sequence decode loops", len(loops), 1)
     for lp in loops:
         it = lp.iter
+        dfn = dc  # function in which `it` is resolved
+        # an ordering helper of the same class: look at what it returns
+        if isinstance(it, ast.Call) and isinstance(it.func, ast.Attribute) and isinstance(it.func.value, ast.Name) and it.func.value.id in ("cls", "self", "AutoSerialize") \
+                and repo.has(f"{SER}:AutoSerialize.{it.func.attr}"):
+            _, helper = repo.func(f"{SER}:AutoSerialize.{it.func.attr}")
+            rets = [n.value for n in walk_no_nested_defs(helper) if isinstance(n, ast.Return) and n.value is not None]
+            if len(rets) == 1:
+                it, dfn = rets[0], helper
         cn = (call_name(it) or "") if isinstance(it, ast.Call) else ""
         var = lp.target.id if isinstance(lp.target, ast.Name) else None
         verdict, why = None, unparse(it)[:80]
@@ -973,7 +981,7 @@ def _rule_sequence_order(check, repo: Repo) -> None:
                 verdict = False
                 why = f"`{unparse(it)[:70]}` orders the decimal index strings lexicographically ('10' < '2')"
         elif isinstance(it, ast.Name):
-            dd = [d for d in definitions(dc, it.id) if isinstance(d, ast.AST)]
+            dd = [d for d in definitions(dfn, it.id) if isinstance(d, ast.AST)]
             if len(dd) == 1 and isinstance(dd[0], ast.Call) and call_name(dd[0]) == "sorted":
                 key = kwarg(dd[0], "key")
                 inner = dd[0].args[0] if dd[0].args else None
